@@ -209,6 +209,10 @@ func (w *run) checkMetadata(st *rpcState) {
 		}
 		return
 	}
+	if st.invocations == 0 && !w.faulty && !st.cancelled && st.r.DeadlineNs == 0 && len(w.sc.Actions) == 0 && st.finishedAt.Before(st.deadline) {
+		// valid metadata, nothing else in the way: the request must reach a handler
+		e.Violate("valid_metadata_not_delivered", "rpc %d: valid user metadata, fault-free run, but no handler was invoked; client status %v %q", id, st.clientStatus.Code(), st.clientStatus.Message())
+	}
 	for att := 0; att < st.invocations; att++ {
 		got := st.srvMD[att]
 		for _, k := range mdKeys(want) {
